@@ -3,6 +3,7 @@
      requests_wellformed   every PeerClient.Send call of every run: to whom, for which chains, how often
      failure_origin        WHEN the call may end with which error
      sigs_strictly_ordered the signatures of a successful return are STRICTLY ascending by signer address
+     giveup_only_after_asking_all  ErrInsufficientObservationResponses only after every observer of every lane was asked
    All are for every configuration, every choice of what Go leaves to chance and every event list. *)
 Require Import Verif.Model.Base Verif.Model.Rmn Verif.Proofs.BaseP Verif.Proofs.RmnP.
 From Coq Require Import Sorting.Sorted.
@@ -412,6 +413,143 @@ Section LogInv.
   Qed.
 End LogInv.
 
+(* ---------- giving up: ErrInsufficientObservationResponses only after EVERY observer has been asked ---------- *)
+Section GiveUp.
+  Variable edv : N -> observation -> N -> bool.
+  Variable vrs : N -> N -> report -> bool.
+  Variable cfg : config.
+  Variable sc : sched.
+
+  Notation gstepF := (gstep edv vrs fixed cfg sc).
+  Notation runF := (run edv vrs fixed cfg sc).
+
+  (* an observation request to node n naming lane ch is in the log (accepted by PeerClient.Send or not: the code adds
+     the node to requestedNodes before it tries to send) *)
+  Definition obs_asked (l : list send_rec) (ch : chain) (n : node) : Prop :=
+    exists r, In r l /\ sd_kind r = 0%N /\ sd_node r = n /\ In ch (sd_chains r).
+
+  Lemma obs_asked_app_l l l' ch n : obs_asked l ch n -> obs_asked (l ++ l') ch n.
+  Proof. intros (r & H & K). exists r. split; [apply in_app_iff; now left|exact K]. Qed.
+
+  Lemma send_obs_asks nodes pairs ss ch n :
+    In n nodes -> In (ch, n) pairs -> 
+    exists new, ss_log (send_obs sc nodes pairs ss) = ss_log ss ++ new /\ obs_asked new ch n.
+  Proof.
+    intros Hn Hp. destruct (send_obs_log sc nodes pairs ss) as (new & E & Em & F). exists new. split; [exact E|].
+    rewrite <- Em in Hn. apply in_map_iff in Hn as (r & Er & Hr). rewrite Forall_forall in F.
+    destruct (F r Hr) as [K C]. exists r. repeat split; auto. rewrite C, Er. now apply chains_of_node_in.
+  Qed.
+
+  Definition askI (g : gstate) : Prop :=
+    match g with
+    | GA us s =>
+        prepare cfg = inl (Ok us) /\
+        (forall ch n, In (ch, n) (a_rq s) -> obs_asked (a_log s) ch n) /\
+        (a_exp s = true -> forall p, In p (all_pairs us) -> In p (a_rq s))
+    | GFinal (Failure FInsufObs) l =>
+        exists us, prepare cfg = inl (Ok us) /\ forall ch n, In (ch, n) (all_pairs us) -> obs_asked l ch n
+    | _ => True
+    end.
+
+  Lemma askI_init : askI (ginit cfg sc).
+  Proof.
+    unfold ginit. destruct (prepare cfg) as [[us| | |]|f] eqn:P; try exact Logic.I.
+    - cbn [askI]. split; [exact P|]. unfold initA. cbn [a_rq a_log a_exp].
+      set (rq := fst (init_loop _ us ([], []))). split; [|discriminate].
+      intros ch n Hp.
+      destruct (send_obs_asks (order_by (s_sendA1 sc) (nodes_of_pairs rq)) rq (mkSendst [] 0 []) ch n) as (new & E & A);
+        [apply order_by_in, nodes_of_pairs_in; now exists ch|exact Hp|].
+      cbn [ss_log app] in E. now rewrite E.
+    - cbn. destruct f; try exact Logic.I. exfalso. unfold prepare in P. destruct (negb _); [discriminate|].
+      destruct (with_F _ _); [|discriminate]. destruct (filter _ _); discriminate.
+  Qed.
+
+  Lemma stepA_giveup_exp us s e :
+    stepA edv fixed cfg sc us s e = Done (inr (Failure FInsufObs)) -> a_exp s = true.
+  Proof.
+    intros H. destruct e as [n b| |]; cbn [stepA] in H.
+    - destruct (parse _ _ _ _ _) as [[id p]|]; [|discriminate].
+      destruct (validate_obs _ _ _ _ _ _) as [v| | |]; try discriminate;
+        (destruct (sufficient _ _) as [[|]| | |]; try discriminate;
+         destruct (a_exp s); [reflexivity|cbn [andb] in H; discriminate]).
+    - destruct (a_exp s); discriminate.
+    - discriminate.
+  Qed.
+
+  Lemma stepA_cont_exp us s e s' :
+    stepA edv fixed cfg sc us s e = Cont s' -> e <> TimerFire \/ a_exp s = true ->
+    a_exp s' = a_exp s.
+  Proof.
+    intros H Hc. destruct e as [n b| |]; cbn [stepA] in H.
+    - destruct (parse _ _ _ _ _) as [[id p]|]; [|inversion H; auto].
+      destruct (validate_obs _ _ _ _ _ _) as [v| | |]; try discriminate;
+        (destruct (sufficient _ _) as [[|]| | |]; try discriminate; destruct (_ && _); try discriminate;
+         inversion H; cbn; auto).
+    - destruct (a_exp s) eqn:Ex; [inversion H; cbn; auto|]. destruct Hc as [Hc|Hc]; [congruence|discriminate].
+    - discriminate.
+  Qed.
+
+  Lemma askI_step g e : askI g -> askI (gstepF g e).
+  Proof.
+    intros I. destruct g as [us s|s|f l]; cbn [gstep]; [| |exact I].
+    - destruct I as (P & Hl & Hx).
+      destruct (stepA edv fixed cfg sc us s e) as [s'|[acc|f]] eqn:Es.
+      + cbn [askI]. split; [exact P|].
+        assert (Same : e <> TimerFire \/ a_exp s = true ->
+                       (forall ch n, In (ch, n) (a_rq s') -> obs_asked (a_log s') ch n) /\
+                       (a_exp s' = true -> forall p, In p (all_pairs us) -> In p (a_rq s'))).
+        { intros Hc. destruct (stepA_cont_same edv cfg sc _ _ _ _ Es Hc) as [E1 E2].
+          rewrite (stepA_cont_exp _ _ _ _ Es Hc), E1, E2. auto. }
+        destruct e as [n b| |]; [apply Same; left; discriminate| |cbn [stepA] in Es; discriminate].
+        destruct (a_exp s) eqn:Ex; [apply Same; now right|]. clear Same.
+        cbn [stepA] in Es. rewrite Ex in Es.
+        set (extra := filter (fun p => negb (rq_mem (fst p) (snd p) (a_rq s))) (all_pairs us)) in *.
+        inversion Es; subst s'. clear Es. cbn [a_rq a_log a_exp]. split.
+        * intros ch n Hp. apply in_app_iff in Hp as [Hp|Hp].
+          -- destruct (send_obs_log sc (order_by (s_sendA2 sc) (nodes_of_pairs extra)) extra
+                         (mkSendst (a_ids s) (a_k s) (a_log s))) as (new & E & _). cbn [ss_log] in E. rewrite E.
+             now apply obs_asked_app_l, Hl.
+          -- destruct (send_obs_asks (order_by (s_sendA2 sc) (nodes_of_pairs extra)) extra
+                         (mkSendst (a_ids s) (a_k s) (a_log s)) ch n) as (new & E & (r & Hr & K));
+               [apply order_by_in, nodes_of_pairs_in; now exists ch|exact Hp|].
+             cbn [ss_log] in E. rewrite E. exists r. split; [apply in_app_iff; now right|exact K].
+        * intros _ [ch n] Hp. apply in_app_iff. destruct (rq_mem ch n (a_rq s)) eqn:Em.
+          -- left. now apply rq_mem_in.
+          -- right. apply filter_In. split; [exact Hp|]. cbn [fst snd]. now rewrite Em.
+      + unfold enterB. destruct (startB cfg sc us acc (a_k s) (a_log s)) as [sb|[f l]] eqn:Eb; [exact Logic.I|].
+        destruct (startB_cases cfg sc us acc (a_k s) (a_log s)) as [(f' & E & Hf)|[E|(sb & E & _)]];
+          rewrite E in Eb; inversion Eb; subst; cbn [askI]; [|exact Logic.I].
+        destruct Hf as [->|[->| ->]]; exact Logic.I.
+      + cbn [askI]. destruct f as [sigs rep|f|]; try exact Logic.I. destruct f; try exact Logic.I.
+        exists us. split; [exact P|]. intros ch n Hp. apply Hl. apply Hx; [|exact Hp].
+        exact (stepA_giveup_exp _ _ _ Es).
+    - destruct (stepB vrs fixed cfg sc s e) as [s'|f] eqn:Es; [exact Logic.I|].
+      cbn [askI]. destruct f as [sigs rep|f|]; try exact Logic.I. destruct f; try exact Logic.I.
+      exfalso. destruct e as [n b| |]; cbn [stepB] in Es.
+      * destruct (parse _ _ _ _ _) as [[id p]|]; [|discriminate].
+        destruct (validate_sig _ _ _ _ _) as [[a g0]| | |]; try discriminate;
+          (destruct (gte_f_plus_one _ _); [discriminate|]; destruct (_ && _); discriminate).
+      * destruct (b_exp s); discriminate.
+      * discriminate.
+  Qed.
+
+  Lemma askI_run evs : askI (runF evs).
+  Proof.
+    unfold run. generalize askI_init. generalize (ginit cfg sc) as g.
+    induction evs as [|e evs IH]; intros g I; cbn [fold_left]; [exact I|]. apply IH. now apply askI_step.
+  Qed.
+
+  (* ErrInsufficientObservationResponses is returned only after an observation request naming lane u has gone to EVERY
+     configured observer of every requested lane u: the call never gives up on observers it has not asked *)
+  Theorem giveup_only_after_asking_all evs l us :
+    runF evs = GFinal (Failure FInsufObs) l -> prepare cfg = inl (Ok us) ->
+    forall u n, In u us -> In n (u_nodes u) -> obs_asked l (u_chain u) n.
+  Proof.
+    intros E P u n Hu Hn. pose proof (askI_run evs) as I. rewrite E in I. cbn [askI] in I.
+    destruct I as (us' & P' & H). rewrite P in P'. inversion P'; subst us'. apply H. apply all_pairs_in. eauto.
+  Qed.
+End GiveUp.
+
 (* non-vacuity: the honest run of Witness — four requests, well-formed; the strict order of its two signatures *)
 Example requests_wellformed_example :
   exists us, prepare Witness.cfg = inl (Ok us) /\
@@ -423,3 +561,11 @@ Example failure_origin_example :
   (exists l, run Witness.edv Witness.vrs fixed Witness.cfg Witness.sc (firstn 2 Witness.good_run ++ [CtxDone])
              = GFinal (Failure FTimeoutB) l).
 Proof. split; eexists; vm_compute; reflexivity. Qed.
+(* giving up after everyone was asked: node 1 answers with a bad signature (the timer is reset to 0 and fires: node 3 is
+   asked), node 2 votes 105, node 3 answers with a bad signature - all three requests finished, one vote *)
+Example giveup_example :
+  exists l, run Witness.edv Witness.vrs fixed Witness.cfg Witness.sc
+              [Resp 1 (BMsg 1 (Witness.obs_of 99 105)); TimerFire; Resp 2 (BMsg 2 (Witness.obs_of 22 105));
+               Resp 3 (BMsg 3 (Witness.obs_of 99 105))]%N = GFinal (Failure FInsufObs) l /\
+            map (fun r => (sd_kind r, sd_node r, sd_chains r)) l = [(0, 1, [5]); (0, 2, [5]); (0, 3, [5])]%N.
+Proof. eexists. split; vm_compute; reflexivity. Qed.
